@@ -161,26 +161,29 @@ func init() {
 		ID: "C03", Level: "model_checking",
 		Harnesses: []Harness{
 			{Name: "C03_unary", Pkg: "zzh", Func: "H_C03_unary", Reach: []string{"done"},
-				What: "Scale/Pow/Exp/Log/trig/hyperbolic: every element is the scalar function of the element at the same position (Pow: symbolic exponent and -2,-1,0,1/2,1,2,3)",
-				Items: tiered(func() []Item { return unaryItems(0, 2, 2) }, func() []Item { return mergeItems(unaryItems(0, 3, 3), unaryItems(4, 4, 2)) })},
+				What:  "Scale/Pow/Exp/Log/trig/hyperbolic: every element is the scalar function of the element at the same position (Pow: symbolic exponent and -2,-1,0,1/2,1,2,3)",
+				Items: tiered(func() []Item { return unaryItems(0, 2, 2) }, func() []Item { return mergeItems(unaryItems(0, 3, 3), unaryItems(4, 6, 2)) })},
 			{Name: "C03_binary", Pkg: "zzh", Func: "H_C03_binary", Reach: []string{"done"},
 				What: "Add/Sub/Mul/Div over every broadcast-compatible shape pair vs NumPy index map; equal to broadcasting explicitly first",
-				Items: tiered(func() []Item { return sItems("op", []string{"Add", "Sub", "Mul", "Div"}, pairItems(0, 2, 2)) },
+				Items: tiered(func() []Item {
+					return mergeItems(sItems("op", []string{"Add", "Sub", "Mul", "Div"}, pairItems(0, 2, 2)), sItems("op", []string{"Add", "Mul"}, pairItems(3, 3, 2)))
+				},
 					func() []Item {
-						return mergeItems(sItems("op", []string{"Add", "Sub", "Mul", "Div"}, pairItems(0, 3, 3)), sItems("op", []string{"Add", "Div"}, pairItems(4, 4, 2)))
+						hi := []Item{{P: map[string]int64{"ra": 5, "rb": 5, "maxdim": 2}}, {P: map[string]int64{"ra": 6, "rb": 6, "maxdim": 2}}, {P: map[string]int64{"ra": 6, "rb": 2, "maxdim": 2}}, {P: map[string]int64{"ra": 1, "rb": 6, "maxdim": 2}}}
+						return mergeItems(sItems("op", []string{"Add", "Sub", "Mul", "Div"}, pairItems(0, 3, 3)), sItems("op", []string{"Add", "Div"}, pairItems(4, 4, 2)), sItems("op", []string{"Sub", "Mul"}, hi))
 					})},
 			{Name: "C03_cmp", Pkg: "zzh", Func: "H_C03_cmp", Reach: []string{"done"},
 				What: "six comparisons yield exactly the 0/1 indicator; ElMax/ElMin; Equals iff all positions equal (pairs identical or apart by > 1e-200)",
 				Items: tiered(func() []Item {
 					return sItems("op", []string{"Eq", "Ne", "Gt", "Ge", "Lt", "Le", "ElMax", "ElMin", "Equals"}, rankItems(0, 2, 2, nil))
 				}, func() []Item {
-					return sItems("op", []string{"Eq", "Ne", "Gt", "Ge", "Lt", "Le", "ElMax", "ElMin", "Equals"}, mergeItems(rankItems(0, 3, 3, nil), rankItems(4, 4, 2, nil)))
+					return sItems("op", []string{"Eq", "Ne", "Gt", "Ge", "Lt", "Le", "ElMax", "ElMin", "Equals"}, mergeItems(rankItems(0, 3, 3, nil), rankItems(4, 6, 2, nil)))
 				})},
 		},
 		Assumptions: []string{numericModel,
 			"math.Exp/Log/Sin/... are uninterpreted functions: which function is applied to which element is checked, not the function's numerics",
 			"Eq/Ne/Equals: operand pairs are identical or differ by more than 1e-200 (as the property states)"},
-		Outside: "ranks 5-6 (rank 4 only with sizes <= 2), dimension sizes above 3; bit-level float behaviour (signed zero, NaN, overflow)",
+		Outside: "sizes above 3 (above 2 for ranks 4-6); rank 5-6 binary broadcasting only for the listed rank pairs; bit-level float behaviour (signed zero, NaN, overflow)",
 	})
 }
 
@@ -201,18 +204,22 @@ func init() {
 		ID: "C04", Level: "model_checking",
 		Harnesses: []Harness{
 			{Name: "C04_matmul", Pkg: "zzh", Func: "H_C04_matmul", Reach: []string{"done"},
-				What: "MatMul vs explicit sum of products with broadcast batch indexing; every m,n,k and batch-shape pair is solver-chosen",
+				What:  "MatMul vs explicit sum of products with broadcast batch indexing; every m,n,k and batch-shape pair is solver-chosen",
 				Items: tiered(func() []Item { return pairItemsLo(2, 3, 2) }, func() []Item { return mergeItems(pairItemsLo(2, 4, 2), pairItemsLo(2, 3, 3), pairItemsLo(5, 5, 2)) })},
 			{Name: "C04_dot", Pkg: "zzh", Func: "H_C04_dot", Reach: []string{"done"},
-				What: "Dot contracts the last dimension after broadcasting the leading ones",
+				What:  "Dot contracts the last dimension after broadcasting the leading ones",
 				Items: tiered(func() []Item { return pairItemsLo(1, 3, 2) }, func() []Item { return mergeItems(pairItemsLo(1, 4, 2), pairItemsLo(1, 3, 3)) })},
 			{Name: "C04_transpose", Pkg: "zzh", Func: "H_C04_transpose", Reach: []string{"done"},
-				What: "Transpose swaps the last two dimensions",
-				Items: tiered(func() []Item { return rankItems(2, 3, 3, nil) }, func() []Item { return mergeItems(rankItems(2, 4, 3, nil), rankItems(5, 5, 2, nil)) })},
+				What:  "Transpose swaps the last two dimensions",
+				Items: tiered(func() []Item { return mergeItems(rankItems(2, 3, 3, nil), rankItems(4, 4, 2, nil)) }, func() []Item { return mergeItems(rankItems(2, 4, 3, nil), rankItems(5, 5, 2, nil)) })},
 			{Name: "C04_identities", Pkg: "zzh", Func: "H_C04_identities", Reach: []string{"done"},
 				What: "A.I = A and (A.B)^T = B^T.A^T as polynomial identities over symbolic matrices",
-				Items: tiered(func() []Item { return items(map[string]int64{"ra": 2, "maxdim": 3}, map[string]int64{"ra": 3, "maxdim": 2}) },
-					func() []Item { return items(map[string]int64{"ra": 2, "maxdim": 4}, map[string]int64{"ra": 3, "maxdim": 3}, map[string]int64{"ra": 4, "maxdim": 2}) })},
+				Items: tiered(func() []Item {
+					return items(map[string]int64{"ra": 2, "maxdim": 3}, map[string]int64{"ra": 3, "maxdim": 2})
+				},
+					func() []Item {
+						return items(map[string]int64{"ra": 2, "maxdim": 4}, map[string]int64{"ra": 3, "maxdim": 3}, map[string]int64{"ra": 4, "maxdim": 2})
+					})},
 		},
 		Assumptions: []string{numericModel},
 		Outside:     "rank 6 (rank 5 only with sizes <= 2), sizes above 3 (4 for plain matrices in the identities)",
@@ -222,10 +229,14 @@ func init() {
 		Harnesses: []Harness{
 			{Name: "C05_full", Pkg: "zzh", Func: "H_C05_full", Reach: []string{"done"},
 				What: "Sum/Max/Min/Avg/Mean/Var/Std over all elements; extrema by the bound-and-attained specification, Std by r>=0 and r^2=Var",
-				Items: tiered(func() []Item { return sItems("op", redOps, rankItems(0, 2, 3, nil)) }, func() []Item { return sItems("op", redOps, mergeItems(rankItems(0, 3, 3, nil), rankItems(4, 4, 2, nil))) })},
+				Items: tiered(func() []Item { return sItems("op", redOps, rankItems(0, 2, 3, nil)) }, func() []Item {
+					return sItems("op", redOps, mergeItems(rankItems(0, 3, 3, nil), rankItems(4, 6, 2, nil)))
+				})},
 			{Name: "C05_along", Pkg: "zzh", Func: "H_C05_along", Reach: []string{"done"},
 				What: "the seven Along forms: shape with dim removed, every element the statistic of its fibre",
-				Items: tiered(func() []Item { return sItems("op", redOps, rankItems(1, 2, 3, nil)) }, func() []Item { return sItems("op", redOps, mergeItems(rankItems(1, 3, 3, nil), rankItems(4, 4, 2, nil))) })},
+				Items: tiered(func() []Item { return sItems("op", redOps, rankItems(1, 2, 3, nil)) }, func() []Item {
+					return sItems("op", redOps, mergeItems(rankItems(1, 3, 3, nil), rankItems(4, 6, 2, nil)))
+				})},
 		},
 		Assumptions: []string{numericModel, "math.Sqrt is an uninterpreted function with the contract sqrt(v)>=0, sqrt(v)^2=v for v>=0"},
 		Outside:     "ranks 5-6 (rank 4 only with sizes <= 2), sizes above 3",
@@ -243,8 +254,10 @@ func init() {
 				What:  "Scale/Pow/Exp/Log/Sin/Cos/Tan/Sinh/Cosh/Tanh: gradient = upstream * derivative (Pow: symbolic exponent with base>0; exponents -2,-1,0,1/2,1,2,3 with base 0 included for 0,1,2,3)",
 				Items: tiered(func() []Item { return c02Unary(0, 2, 2) }, func() []Item { return mergeItems(c02Unary(0, 3, 3), c02Unary(4, 4, 2)) })},
 			{Name: "C02_binary", Pkg: "zzh", Func: "H_C02_binary", Reach: []string{"done"},
-				What:  "Add/Sub/Mul/Div/ElMax/ElMin on same-shape operands, every tracked subset",
-				Items: tiered(func() []Item { return sItems("op", binOps, rankItems(0, 2, 2, nil)) }, func() []Item { return sItems("op", binOps, mergeItems(rankItems(0, 3, 3, nil), rankItems(4, 4, 2, nil))) })},
+				What: "Add/Sub/Mul/Div/ElMax/ElMin on same-shape operands, every tracked subset",
+				Items: tiered(func() []Item { return sItems("op", binOps, rankItems(0, 2, 2, nil)) }, func() []Item {
+					return sItems("op", binOps, mergeItems(rankItems(0, 3, 3, nil), rankItems(4, 4, 2, nil)))
+				})},
 			{Name: "C02_shape", Pkg: "zzh", Func: "H_C02_shape", Reach: []string{"done"},
 				What: "Transpose/Reshape/UnSqueeze/Squeeze/Flatten: gradient is the inverse element permutation of the upstream",
 				Items: func(tier string) []Item {
@@ -273,8 +286,10 @@ func init() {
 					return mergeItems(withP(rankItems(1, 2, 2, nil), map[string]int64{"operands": 2}), withP(rankItems(1, 1, 2, nil), map[string]int64{"operands": 3}))
 				}},
 			{Name: "C02_reduce", Pkg: "zzh", Func: "H_C02_reduce", Reach: []string{"done"},
-				What:  "Sum/Max/Min/Avg/Mean/Var/Std Along every dim (extrema: fibre elements pairwise apart by > 1e-200; Std: variance > 0)",
-				Items: tiered(func() []Item { return sItems("op", redOps, rankItems(1, 2, 2, nil)) }, func() []Item { return sItems("op", redOps, mergeItems(rankItems(1, 3, 3, nil), rankItems(4, 4, 2, nil))) })},
+				What: "Sum/Max/Min/Avg/Mean/Var/Std Along every dim (extrema: fibre elements pairwise apart by > 1e-200; Std: variance > 0)",
+				Items: tiered(func() []Item { return sItems("op", redOps, rankItems(1, 2, 2, nil)) }, func() []Item {
+					return sItems("op", redOps, mergeItems(rankItems(1, 3, 3, nil), rankItems(4, 4, 2, nil)))
+				})},
 			{Name: "C02_dot", Pkg: "zzh", Func: "H_C02_dot", Reach: []string{"done"},
 				What:  "Dot on equal shapes (no expansion), ranks 1..",
 				Items: shapeTier(1, 2, 2, 1, 3, 3, 2, nil)},
@@ -302,8 +317,10 @@ func init() {
 					return rankItems(0, 2, 2, map[string]int64{"maxrank2": 3})
 				}},
 			{Name: "C07_implicit", Pkg: "zzh", Func: "H_C07_implicit", Reach: []string{"done"},
-				What:  "Add/Sub/Mul/Div with either operand expanded, every tracked subset",
-				Items: tiered(func() []Item { return sItems("op", []string{"Add", "Sub", "Mul", "Div"}, pairItems(0, 2, 2)) }, func() []Item { return sItems("op", []string{"Add", "Sub", "Mul", "Div"}, mergeItems(pairItems(0, 3, 2), pairItems(0, 2, 3))) })},
+				What: "Add/Sub/Mul/Div with either operand expanded, every tracked subset",
+				Items: tiered(func() []Item { return sItems("op", []string{"Add", "Sub", "Mul", "Div"}, pairItems(0, 2, 2)) }, func() []Item {
+					return sItems("op", []string{"Add", "Sub", "Mul", "Div"}, mergeItems(pairItems(0, 3, 2), pairItems(0, 2, 3)))
+				})},
 			{Name: "C07_dot", Pkg: "zzh", Func: "H_C07_dot", Reach: []string{"done"},
 				What:  "Dot with leading dimensions of either operand expanded",
 				Items: tiered(func() []Item { return pairItemsLo(1, 2, 2) }, func() []Item { return mergeItems(pairItemsLo(1, 3, 2), pairItemsLo(1, 2, 3)) })},
@@ -320,6 +337,9 @@ func init() {
 	lk := func(l, k int64) map[string]int64 {
 		return map[string]int64{"leaves": l, "steps": k, "rootlast": 0, "ops": 0}
 	}
+	lk5 := func(l, k int64) map[string]int64 {
+		return map[string]int64{"leaves": l, "steps": k, "rootlast": 0, "ops": 2}
+	}
 	lkr := func(l, k, ops int64) map[string]int64 {
 		return map[string]int64{"leaves": l, "steps": k, "rootlast": 1, "ops": ops}
 	}
@@ -328,19 +348,24 @@ func init() {
 		Harnesses: []Harness{
 			{Name: "C01_dag", Pkg: "zzh", Func: "H_C01_dag", Reach: []string{"done"},
 				What: "solver-enumerated straight-line programs over {Scale,Add,Sub,Mul}: every operand choice (fan-out, reconvergence, x op x), every root (last node only for the longest programs), tracked/untracked leaves; all tensors' gradients vs a reverse-mode tape; each rule closure invoked a bounded number of times",
-				Items: tiered(func() []Item { return items(lk(1, 1), lk(1, 2), lk(2, 2), lkr(1, 3, 0)) },
-					func() []Item { return items(lk(1, 1), lk(1, 2), lk(2, 2), lk(1, 3), lkr(2, 3, 0), lkr(1, 4, 1)) })},
+				Items: tiered(func() []Item { return items(lk5(1, 1), lk5(1, 2), lk5(2, 2), lkr(1, 3, 0)) },
+					func() []Item { return items(lk5(1, 1), lk5(1, 2), lk5(2, 2), lk(1, 3), lkr(1, 3, 2), lkr(2, 3, 0), lkr(1, 4, 1)) })},
 			{Name: "C01_accum", Pkg: "zzh", Func: "H_C01_accum", Reach: []string{"done"},
 				What:  "two graphs sharing only leaves, two back-propagations: leaf gradients add up",
 				Items: tiered(func() []Item { return items(lk(1, 1), lk(2, 1), lk(1, 2)) }, func() []Item { return items(lk(1, 1), lk(2, 1), lk(1, 2), lk(2, 2)) })},
+			{Name: "C01_seq", Pkg: "zzh", Func: "H_C01_seq", Reach: []string{"done"},
+				What:  "graph A built and back-propagated, then graph B built over the same untracked leaf and a fresh tracked leaf and back-propagated: both get the total derivative, the untracked leaf is never spent",
+				Items: tiered(func() []Item { return items(map[string]int64{"steps": 1, "ops": 2}, map[string]int64{"steps": 2, "ops": 2}) }, func() []Item {
+					return items(map[string]int64{"steps": 1, "ops": 2}, map[string]int64{"steps": 2, "ops": 2}, map[string]int64{"steps": 3, "ops": 1})
+				})},
 			{Name: "C01_ladder", Pkg: "zzh", Func: "H_C01_ladder", Reach: []string{"done"},
-				What:  "ladder y <- y*y + y of depth d: total derivative, bounded rule applications (symbolic), depth-22 finishes in 10 s (native replay)",
+				What: "ladder y <- y*y + y of depth d: total derivative, bounded rule applications (symbolic), depth-22 finishes in 10 s (native replay)",
 				Items: tiered(func() []Item { return items(map[string]int64{"depth": 2}, map[string]int64{"depth": 4}) }, func() []Item {
 					return items(map[string]int64{"depth": 2}, map[string]int64{"depth": 4}, map[string]int64{"depth": 6})
 				})},
 		},
 		Assumptions: []string{numericModel,
-			"op alphabet of the enumerated DAGs is the ring {Scale, Add, Sub, Mul}: the walk in back_propagation.go is op-agnostic, per-op rules are C02",
+			"op alphabet of the enumerated DAGs: {Scale, Add, Sub, Mul} (operands reach the edges through implicit Broadcast copies) and Concat+Slice (operands reach the edges directly); the walk in back_propagation.go is op-agnostic, per-op rules are C02",
 			"graphs are single-use apart from shared leaves (as the property states)"},
 		Outside: "programs longer than 4 steps (ladders deeper than 6), leaf shapes other than [2]",
 	})
@@ -362,6 +387,9 @@ func init() {
 		Harnesses: []Harness{
 			{Name: "C12_loss", Pkg: "zzh", Func: "H_C12_loss", Reach: []string{"done"},
 				What:  "MSE/BCE/CE value vs the formula with clipping as ite; scalar result, finite, non-negative, same term for every tracked/untracked combination",
+				Items: tiered(func() []Item { return lossItems(2, 2, []int64{0}) }, func() []Item { return lossItems(3, 3, []int64{0}) })},
+			{Name: "C12_reuse", Pkg: "zzh", Func: "H_C12_reuse", Reach: []string{"done"},
+				What:  "one loss object evaluated twice on pairs of independently solver-chosen shapes: no state from the first call reaches the second",
 				Items: tiered(func() []Item { return lossItems(2, 2, []int64{0}) }, func() []Item { return lossItems(3, 3, []int64{0}) })},
 		},
 		Assumptions: []string{numericModel, "|prediction|, |target| <= 1e6",
@@ -408,6 +436,13 @@ func init() {
 			{Name: "C14_act", Pkg: "zzh", Func: "H_C14_act", Reach: []string{"done"},
 				What:  "Relu/LeakyRelu/Sigmoid/Tanh element-wise and Softmax along every dim (and nil configs): defining formula, shape; Softmax non-negative and sums to 1",
 				Items: tiered(func() []Item { return actItems(0, 2, 2, []int64{0}) }, func() []Item { return mergeItems(actItems(0, 3, 3, []int64{0}), actItems(4, 4, 2, []int64{0})) })},
+			{Name: "C14_reuse", Pkg: "zzh", Func: "H_C14_reuse", Reach: []string{"done"},
+				What: "one activation object applied to two inputs of independently chosen rank and shape",
+				Items: tiered(func() []Item {
+					return sItems("act", []string{"Relu", "LeakyRelu", "Sigmoid", "Tanh", "Softmax"}, items(map[string]int64{"maxrank": 2, "maxdim": 2, "nilconf": 1}))
+				}, func() []Item {
+					return sItems("act", []string{"Relu", "LeakyRelu", "Sigmoid", "Tanh", "Softmax"}, items(map[string]int64{"maxrank": 3, "maxdim": 2, "nilconf": 1}, map[string]int64{"maxrank": 2, "maxdim": 3, "nilconf": 0}))
+				})},
 		},
 		Assumptions: []string{numericModel, "math.Exp is an uninterpreted function with exp>0 (so e^x never overflows here; |x|<=700 is irrelevant in the real model)"},
 		Outside:     "rank 5 (rank 4 only with sizes <= 2), sizes above 3; negative zero and overflow behaviour",
@@ -539,8 +574,10 @@ func init() {
 						combos([]string{"Sigmoid"}, []string{"MSE"}, map[string]int64{"maxb": 2, "maxf": 2, "maxo": 1, "steps": 2}))
 				})},
 			{Name: "C11_noreset", Pkg: "zzh", Func: "H_C11_noreset", Reach: []string{"done"},
-				What:  "second step without ResetGradContext: Update returns an error and replaces nothing",
-				Items: func(string) []Item { return combos([]string{"none", "Sigmoid", "Softmax"}, allLosses, map[string]int64{"maxb": 2, "maxf": 2, "maxo": 2}) }},
+				What: "second step without ResetGradContext: Update returns an error and replaces nothing",
+				Items: func(string) []Item {
+					return combos([]string{"none", "Sigmoid", "Softmax"}, allLosses, map[string]int64{"maxb": 2, "maxf": 2, "maxo": 2})
+				}},
 		},
 		Assumptions: []string{numericModel, "targets in [0,1]; Relu/LeakyRelu pre-activations apart from 0 and BCE/CE predictions apart from the clip bounds by more than 1e-200 (differentiable points)",
 			"step counts beyond the explored ones follow from the inductive form: each step starts from arbitrary weight values held by the real post-update tensor objects"},
@@ -551,6 +588,7 @@ func init() {
 var c08OpNames = []string{
 	"Scale", "Pow", "Exp", "Log", "Sin", "Cos", "Tan", "Sinh", "Cosh", "Tanh",
 	"Transpose", "Reshape", "UnSqueeze", "Squeeze", "Flatten", "Broadcast", "Slice",
+	"ReshapeSame", "FlattenLast", "BroadcastSame", "SliceWhole", "PatchWhole",
 	"SumAlong", "MaxAlong", "MinAlong", "AvgAlong", "VarAlong", "StdAlong", "MeanAlong",
 	"Add", "Sub", "Mul", "Div", "ElMax", "ElMin", "Dot", "MatMul", "Patch", "Concat2", "Concat3",
 	"Eq", "Ne", "Gt", "Ge", "Lt", "Le",
@@ -564,9 +602,13 @@ func init() {
 				What:  "one application of each of the 35 differentiable ops / Concat (2,3 operands) / 6 comparisons with every operand in a solver-chosen state {clean untracked, tracked leaf, spent tracked, computed-from-spent}: result flags, no gradient, forward values identical to the untracked run",
 				Items: func(string) []Item { return sItems("op", c08OpNames, items(map[string]int64{})) }},
 			{Name: "C08_hist", Pkg: "zzh", Func: "H_C08_hist", Reach: []string{"done"},
-				What:  "solver-enumerated histories over {new leaf, Scale, Add, Gt, Concat+Slice, BackPropagate(i), ResetGradContext(i,b)} against a reference state machine (preconditions (a),(b) assumed); after every step every tensor's gradient presence / tracked / spent flags; footprint of BackPropagate",
-				Items: tiered(func() []Item { return items(map[string]int64{"steps": 1}, map[string]int64{"steps": 2}, map[string]int64{"steps": 3}) },
-					func() []Item { return items(map[string]int64{"steps": 1}, map[string]int64{"steps": 2}, map[string]int64{"steps": 3}, map[string]int64{"steps": 4}) })},
+				What: "solver-enumerated histories over {new leaf, Scale, Add, Gt, Concat+Slice, BackPropagate(i), ResetGradContext(i,b)} against a reference state machine (preconditions (a),(b) assumed); after every step every tensor's gradient presence / tracked / spent flags; footprint of BackPropagate",
+				Items: tiered(func() []Item {
+					return items(map[string]int64{"steps": 1}, map[string]int64{"steps": 2}, map[string]int64{"steps": 3})
+				},
+					func() []Item {
+						return items(map[string]int64{"steps": 1}, map[string]int64{"steps": 2}, map[string]int64{"steps": 3}, map[string]int64{"steps": 4})
+					})},
 		},
 		Assumptions: []string{"histories respect the property's preconditions (a) single-use graphs apart from shared leaves and (b) no reset of a tensor with tracked, not yet back-propagated results",
 			"the one-step harness covers flag propagation for histories of any length (arbitrary operand states, one operation)", numericModel},
@@ -599,8 +641,10 @@ func init() {
 		ID: "C09", Level: "model_checking",
 		Harnesses: []Harness{
 			{Name: "C09_construct", Pkg: "zzh", Func: "H_C09_construct", Reach: []string{"accepted", "rejected"},
-				What:  "Full/Zeros/Ones/Eye/RandU/RandN with arbitrary dims (length 0..3, nil, entries in [-2,6]) and nil / CPU / arbitrary-device configs",
-				Items: func(string) []Item { return confs(sItems("fn", []string{"Full", "Zeros", "Ones", "Eye", "RandU", "RandN"}, items(map[string]int64{}))) }},
+				What: "Full/Zeros/Ones/Eye/RandU/RandN with arbitrary dims (length 0..3, nil, entries in [-2,6]) and nil / CPU / arbitrary-device configs",
+				Items: func(string) []Item {
+					return confs(sItems("fn", []string{"Full", "Zeros", "Ones", "Eye", "RandU", "RandN"}, items(map[string]int64{})))
+				}},
 			{Name: "C09_tensorof", Pkg: "zzh", Func: "H_C09_tensorof", Reach: []string{"accepted", "rejected"},
 				What:  "TensorOf with nested data of depth 0..4 whose length at EVERY node is solver-chosen (ragged at any depth, empty, nil)",
 				Items: ragged},
@@ -626,8 +670,10 @@ func init() {
 				What:  "Input.Forward with and without SeedFunc, with 0..1 inputs",
 				Items: func(string) []Item { return items(map[string]int64{}) }},
 			{Name: "C09_act", Pkg: "zzh", Func: "H_C09_act", Reach: []string{"accepted", "rejected"},
-				What:  "activation constructors (nil configs, Softmax Dim in [-2,3]) and Forward with 0..2 inputs (nil, rank 0..2)",
-				Items: func(string) []Item { return sItems("act", []string{"Relu", "LeakyRelu", "Sigmoid", "Tanh", "Softmax"}, items(map[string]int64{})) }},
+				What: "activation constructors (nil configs, Softmax Dim in [-2,3]) and Forward with 0..2 inputs (nil, rank 0..2)",
+				Items: func(string) []Item {
+					return sItems("act", []string{"Relu", "LeakyRelu", "Sigmoid", "Tanh", "Softmax"}, items(map[string]int64{}))
+				}},
 			{Name: "C09_loss", Pkg: "zzh", Func: "H_C09_loss", Reach: []string{"accepted", "rejected"},
 				What:  "MSE/BCE/CE Compute with nil or any-rank, mismatched inputs",
 				Items: func(string) []Item { return sItems("loss", []string{"MSE", "BCE", "CE"}, items(map[string]int64{})) }},
@@ -638,7 +684,7 @@ func init() {
 				What:  "NewSGD(nil | config) and Update(nil pointer | nil tensor | no gradient | gradient)",
 				Items: func(string) []Item { return items(map[string]int64{}) }},
 			{Name: "C09_init", Pkg: "zzh", Func: "H_C09_init", Reach: []string{"accepted", "rejected"},
-				What:  "the seven initializer constructors (nil configs, parameters and fans in [-2,3] / any real) and Init with arbitrary shapes",
+				What: "the seven initializer constructors (nil configs, parameters and fans in [-2,3] / any real) and Init with arbitrary shapes",
 				Items: func(string) []Item {
 					return sItems("init", []string{"Full", "Uniform", "Normal", "HeUniform", "HeNormal", "XavierUniform", "XavierNormal"}, items(map[string]int64{}))
 				}},
@@ -663,11 +709,15 @@ func init() {
 				What:  "BackPropagate writes only gradient / spent fields; SGD.Update only the pointee; ResetGradContext only the receiver's context",
 				Items: func(string) []Item { return items(map[string]int64{}) }},
 			{Name: "C10_alias_shape", Pkg: "zzh", Func: "H_C10_alias_shape", Reach: []string{"done"},
-				What:  "dims / nested data / shape arguments and Shape() results overwritten with fresh solver values after the call: tensors and later gradients unaffected",
-				Items: func(string) []Item { return sItems("fn", []string{"Full", "TensorOf", "Reshape", "Broadcast", "Shape"}, rankItems(2, 2, 2, nil)) }},
+				What: "dims / nested data / shape arguments and Shape() results overwritten with fresh solver values after the call: tensors and later gradients unaffected",
+				Items: func(string) []Item {
+					return sItems("fn", []string{"Full", "TensorOf", "Reshape", "Broadcast", "Shape"}, rankItems(2, 2, 2, nil))
+				}},
 			{Name: "C10_alias_index", Pkg: "zzh", Func: "H_C10_alias_index", Reach: []string{"done"},
-				What:  "index ranges (Slice, Patch) and the tensor list (Concat) overwritten with solver-chosen values between the forward call and BackPropagate: gradients follow the arguments given at call time",
-				Items: func(string) []Item { return sItems("fn", []string{"Slice", "Patch", "Concat"}, items(map[string]int64{})) }},
+				What: "index ranges (Slice, Patch) and the tensor list (Concat) overwritten with solver-chosen values between the forward call and BackPropagate: gradients follow the arguments given at call time",
+				Items: func(string) []Item {
+					return sItems("fn", []string{"Slice", "Patch", "Concat"}, items(map[string]int64{}))
+				}},
 		},
 		Assumptions: []string{"the store log is exact for the interpreted code (every ssa.Store and builtin copy/append into an object allocated before the call); gonum/x-exp internals are stubbed", numericModel},
 		Outside:     "programs of more than one forward call followed by BackPropagate/Update; operand shapes other than the fixed small ones",
